@@ -48,7 +48,7 @@ DoD(e) ==
 Consume ==
   /\ res.k = "running" /\ l <= Len(Ev)
   /\ LET e == Ev[l] IN
-     IF e.side = "E" THEN l' = l + 1 /\ UNCHANGED <<hs, hd, res>>   \* environment event: no handler involved
+     IF e.side = "E" \/ T.kind = "multi" THEN l' = l + 1 /\ UNCHANGED <<hs, hd, res>>   \* environment event: no handler involved
      ELSE IF e.side = "S" THEN
         LET r == DoS(e) IN
         IF r.m = {} THEN hs' = r.h /\ l' = l + 1 /\ UNCHANGED <<hd, res>>
